@@ -339,7 +339,7 @@ def crash_enumeration(ctx: Ctx, hbin: Path, drv: Path, n_hist: int) -> None:
 
 def spec() -> Spec:
     def post(ctx, results):
-        n = {"quick": 30, "thorough": 500}[ctx.tier]
+        n = {"quick": 30, "thorough": 300}[ctx.tier]
         drv = LEAN / ".lake" / "build" / "bin" / "drv_c04"
         try:
             crash_enumeration(ctx, harness(), drv, n)
@@ -354,8 +354,8 @@ def spec() -> Spec:
         generate=generate,
         extract=extract_store,
         nontrivial=nontrivial,
-        budget={"quick": 300, "thorough": 6000},
-        search_budget={"quick": 1500, "thorough": 12000},
+        budget={"quick": 300, "thorough": 4000},
+        search_budget={"quick": 800, "thorough": 6000},
         post=post,
         rule="(a) histories of put/overwrite/get/sweep/restart/planted files (and store_chunk/tick on a Node) on a real scratch "
              "directory, directory listing with content hashes after every mutating op, payload sizes {0,1,..,4095,4096,4097,8192,"
